@@ -13,7 +13,7 @@ BOUNDED = {
          'the corpus of ~370 D-symbols (8 parsed, the rest pseudo-random involution tables of size <= 8, dimension <= 3, fixed seed): print, parse, compare; '
          'plus ~2300 malformed strings (hand-written corner cases incl. decimal numbers beyond 64 bits at every position, rejected texts with multi-byte characters at every distance from the start, headers with counters 0, and single-character edits of valid text): no panic, Ok => involutions and degrees multiples of r'),
  'C02': ('Traversal, orbit, orbit_reps, is_connected, is_loopless, is_weakly_oriented, is_oriented (stateful iterator over BTreeMap/VecDeque/HashSet: outside the verifier)',
-         'the same corpus; ALL index lists in ascending and descending order plus two mixed ones; all seeds: orbit = reachable set, one representative per component, '
+         'the same corpus; ALL index lists in ascending and descending order plus two mixed ones; all seeds (orbit_reps also with the seeds in descending and rotated order): orbit = reachable set, one representative per component, '
          'every i-edge of a traversed component exactly once, predicates = reachability / bipartiteness computed independently; r/v/m of both representations on every '
          '(i, j, d) including out-of-range values; 240 random PARTIAL D-sets (size <= 5, dimension <= 3, about a third of the entries undefined): orbit, orbit_reps, '
          'is_connected, is_complete against reachability with an undefined operation as no edge; 600 random histories of PartialDSet::set (conflicting calls included): every ACCEPTED call leaves a partial involution; '
